@@ -497,8 +497,12 @@ void cmi_dataset_histogram_fill(struct cmi_dataset_histogram *hp,
         else if (xa[ui] > hp->high_lim) {
             bin = hp->num_bins - 1u;
         }
-        else {
+        else if (hp->binsize > 0.0) {
             bin = 1u + (uint16_t)((xa[ui] - hp->low_lim) / hp->binsize);
+        }
+        else {
+            /* Zero-width range, e.g., autoscaled constant data */
+            bin = 1u;
         }
 
         /* Add it to that bin and note the high-water mark */
@@ -520,7 +524,7 @@ void cmi_dataset_histogram_print(const struct cmi_dataset_histogram *hp,
 
     /* Max width of the histogram bars */
     const uint16_t max_stars = 50u;
-    const double scale = hp->binmax / (double)max_stars;
+    const double scale = (hp->binmax > 0.0) ? hp->binmax / (double)max_stars : 1.0;
 
     /* Print the histogram */
     data_print_line(fp, symbol_thin, line_length);
@@ -573,9 +577,9 @@ void cmb_dataset_histogram_print(const struct cmb_dataset *dsp,
         high_lim = dsp->max;
     }
 
-    const unsigned datarange = (unsigned)ceil(high_lim - low_lim);
-    if (datarange < num_bins) {
-        num_bins = (datarange > 0u) ? datarange : 1u;
+    const double datarange = ceil(high_lim - low_lim);
+    if (datarange < (double)num_bins) {
+        num_bins = (datarange > 0.0) ? (unsigned)datarange : 1u;
     }
 
     struct cmi_dataset_histogram *hp = NULL;
